@@ -3,4 +3,4 @@
 From Coq Require Import ZArith String ExtrOcamlBasic.
 Require Import ZV.Generated.SandboxTables ZV.Model.Sandbox ZV.Model.Cmdline.
 Extraction "model.ml" Z.add Z.mul Z.opp Z.div_eucl Z.of_nat Z.to_nat Z.compare
-  predicted_effects sandboxed run_abs impure_entries cfg_name run_cmdline last_sandbox is_flag.
+  predicted_effects sandboxed run_abs impure_entries cfg_name run_cmdline last_sandbox is_flag session.
